@@ -65,7 +65,24 @@ fn main() {
     let code = match id.as_str() {
         "C01" => engine::main_for(props::c01::C01, &opts),
         "C02" => engine::main_for(props::c01::C02, &opts),
+        "C03" => engine::main_for(props::c03::C03, &opts),
+        "C04" => engine::main_for(props::c04::C04, &opts),
+        "C05" => engine::main_for(props::c05::C05, &opts),
+        "C06" => engine::main_for(props::c06::C06, &opts),
+        "C07" => engine::main_for(props::c07::C07, &opts),
+        "C08" => engine::main_for(props::c08::C08, &opts),
+        "C09" => engine::main_for(props::c09::C09, &opts),
+        "C10" => engine::main_for(props::c10::C10, &opts),
+        "C11" => engine::main_for(props::c11::C11, &opts),
+        "C12" => engine::main_for(props::c12::C12, &opts),
         "C13" => engine::main_for(props::c13::C13, &opts),
+        "C14" => engine::main_for(props::c14::C14, &opts),
+        "C15" => engine::main_for(props::c15::C15, &opts),
+        "C16" => engine::main_for(props::c16::C16, &opts),
+        "C17" => engine::main_for(props::c17::C17, &opts),
+        "C18" => engine::main_for(props::c18::C18, &opts),
+        "C19" => engine::main_for(props::c19::C19, &opts),
+        "C20" => engine::main_for(props::c20::C20, &opts),
         _ => {
             eprintln!("unknown property {}", id);
             2
